@@ -130,6 +130,15 @@ func (c *FnCtx) callStatic(fr *Frame, st *State, callee *ssa.Function, args []SV
 	default:
 		rt = sig.Results()
 	}
+	if c.checks["extnil"] && sig.Recv() != nil && len(args) > 0 && c.inSpec == 0 && !c.eng.inModule(callee) {
+		// a method of a dependency called on a pointer that came back from a dependency call
+		// together with an error (whatever models the method: contract, handler or nothing)
+		if _, isPtr := sig.Recv().Type().Underlying().(*types.Pointer); isPtr {
+			if rv, ok := args[0].(Sc); ok && c.extPtrs[rv.T.S] {
+				c.safety("extnil", st, Not(Eq(rv.T, IntLit(0))))
+			}
+		}
+	}
 	if ct := c.eng.contractFor(callee); ct != nil && !ct.Inline && !(c.fn == callee && fr.depth == 0 && false) {
 		return c.useContract(fr, st, ct, callee, sig, callee.Name(), args, rt)
 	}
@@ -259,7 +268,9 @@ func (c *FnCtx) callStatic(fr *Frame, st *State, callee *ssa.Function, args []SV
 	if len(ms.heaps) > 0 {
 		c.havoc(st, fr, ms, "extern "+full)
 	}
-	return c.defaultResult(st, rt, callee.Name())
+	res := c.defaultResult(st, rt, callee.Name())
+	c.markExtResult(res, rt)
+	return res
 }
 
 func (c *FnCtx) pureResult(st *State, callee *ssa.Function, args []SV, rt types.Type) SV {
